@@ -106,9 +106,17 @@ def record_case(seed):
         sub = rng.choice([1, 2, 3, 5, 7])
     has_err = rng.random() < 0.8
     e = np.array(err, dtype=float) if has_err else None
+    # non-finite error values at pixels whose data are finite: excluded like masked pixels (with or without an input mask)
+    ebad = []
+    if has_err and rng.random() < 0.3:
+        for _ in range(rng.randint(1, 2)):
+            r, c = rng.randrange(h), rng.randrange(w)
+            if [r, c] not in bad and [r, c] not in ebad:
+                ebad.append([r, c])
+                e[r, c] = [np.nan, np.inf][(r + c) % 2]
     xy = (cx4 / 4.0, cy4 / 4.0)
     radii = [r / 4.0 for r in r4]
-    rec = {'id': seed, 'kind': kind, 'data': data, 'err': err, 'bad': bad, 'cx': cx4, 'cy': cy4, 'radii': r4, 'method': method,
+    rec = {'id': seed, 'kind': kind, 'data': data, 'err': err, 'bad': bad + ebad, 'error_nonfinite': bool(ebad), 'cx': cx4, 'cy': cy4, 'radii': r4, 'method': method,
            'subpixels': sub, 'has_error': has_err, 'nonneg': mode in ('nonneg', 'constant'), 'constant': data[0][0] if mode == 'constant' and not bad else -1}
     rpos = [r for r in radii if r > 0]
     off = len(radii) - len(rpos)
@@ -130,6 +138,8 @@ def record_case(seed):
     tot = ~np.isfinite(d)
     if mask is not None:
         tot |= mask
+    if e is not None:
+        tot |= ~np.isfinite(e)
     af, aa, ae = [], [], []
     for r in radii:
         if r <= 0:
